@@ -1,4 +1,4 @@
-import ZbossModel.Proofs.HostRest
+import ZbossModel.Proofs.HostTrace2
 import ZbossModel.Proofs.HostAck
 import ZbossModel.Proofs.NcpWire
 /-! # C11 - any request reaches the NCP intact, fragments contiguous, each awaiting its ACK
@@ -60,26 +60,26 @@ theorem C11_write_step (st : St) (i : Nat) (r : Req) (fuel : Nat) (hg : getReq s
 
 /-- **contiguous, every history (whole-trace form)**: the complete output log of every event sequence - any
     number of concurrent requests of any size, blocking or not, any ACK / response / timer / cancellation / close
-    / loss timing - is accepted by the message monitor `monStep`: a fragment numbered 0 is written only when no
+    / loss timing, any number of `close()` / `connect()` cycles on the same object (`Proofs/HostTrace2.lean`) - is
+    accepted by the message monitor `monStep`: a fragment numbered 0 is written only when no
     message is open, a fragment numbered `f > 0` only when the open message is this request's and `f` is the
     next fragment; a message stays open until its last fragment is written or its request ends -/
-theorem C11_trace (evs : List Ev) (hnc : ∀ e ∈ evs, e ≠ .connect) :
-    ∃ m, monRun none (runEvents {} evs).2.flatten = some m := mon_accepts evs (gen_zero evs hnc)
+theorem C11_trace (evs : List Ev) : ∃ m, monRun none (runEvents {} evs).2.flatten = some m := mon_accepts_all evs
 
 /-- the same without the monitor: whenever fragment `f > 0` of request `i` is written, the last data frame
     written before it - in the whole history - is fragment `f - 1` of the same request, and the request did not
     end in between.  Hence the fragments of one message are never interleaved with data frames of another -/
-theorem C11_contiguous (evs : List Ev) (hnc : ∀ e ∈ evs, e ≠ .connect) (pre post : List Out) (i f s n : Nat) (hf : 0 < f)
+theorem C11_contiguous (evs : List Ev) (pre post : List Out) (i f s n : Nat) (hf : 0 < f)
     (hlog : (runEvents {} evs).2.flatten = pre ++ [.write i f s n] ++ post) :
     ∃ pre1 mid s', pre = pre1 ++ [.write i (f - 1) s' n] ++ mid ∧
       ∀ o ∈ mid, isWrite o = false ∧ isDoneOf i o = false :=
-  contiguous_of_accepts _ pre post i f s n hf (C11_trace evs hnc) hlog
+  contiguous_of_accepts _ pre post i f s n hf (C11_trace evs) hlog
 
 /-- a message is abandoned for good: once a request has ended, none of its fragments `f > 0` is ever written -/
-theorem C11_no_fragment_after_end (evs : List Ev) (hnc : ∀ e ∈ evs, e ≠ .connect) (pre post : List Out) (i f s n : Nat) (hf : 0 < f) (o : Outcome)
+theorem C11_no_fragment_after_end (evs : List Ev) (pre post : List Out) (i f s n : Nat) (hf : 0 < f) (o : Outcome)
     (hlog : (runEvents {} evs).2.flatten = pre ++ [.write i f s n] ++ post) (s' : Nat) (a b : List Out)
     (hpre : pre = a ++ [.write i (f - 1) s' n] ++ b) (hb : ∀ x ∈ b, isWrite x = false) : Out.done i o ∉ b := by
-  obtain ⟨pre1, mid, s'', he, hfree⟩ := C11_contiguous evs hnc pre post i f s n hf hlog
+  obtain ⟨pre1, mid, s'', he, hfree⟩ := C11_contiguous evs pre post i f s n hf hlog
   -- the two decompositions of `pre` around its last data frame coincide
   have hlast : ∀ (l1 l2 m1 m2 : List Out) (w1 w2 : Out), l1 ++ [w1] ++ m1 = l2 ++ [w2] ++ m2 → isWrite w1 = true →
       isWrite w2 = true → (∀ x ∈ m1, isWrite x = false) → (∀ x ∈ m2, isWrite x = false) → m1 = m2 := by
@@ -118,6 +118,11 @@ theorem C11_no_fragment_after_end (evs : List Ev) (hnc : ∀ e ∈ evs, e ≠ .c
   rw [hmid] at hmem
   have := (hfree _ hmem).2
   simp [isDoneOf] at this
+
+/-- the write a request in `waitT` would *skip* once the transport has gone (`uart.send` returns at once without a
+    transport) never happens on a reachable history: in every state without a transport nobody is in `waitT` -/
+theorem C11_no_write_is_skipped (evs : List Ev) (h : (runEvents {} evs).1.transport = false) :
+    ∀ r ∈ (runEvents {} evs).1.reqs, r.phase ≠ .waitT := never_skips evs h
 
 /-- **every scheduling order**: `MReach` closes the initial state under the immediate effect of any event and
     under single micro-steps of *any* request task in *any* order (ready or not, repeated at will).  In every
@@ -172,6 +177,12 @@ example : let st := (runEvents {} [.start 1 4 false 2 3013]).1
     the log is accepted, the second message starts only after the first has ended -/
 example : ((runEvents {} [.start 1 4 false 3 3013, .start 2 4 false 2 5026, .rxAck 0, .cancel 1, .rxAck 1, .rxAck 2]).2.flatten) =
     [.write 1 0 0 3, .write 1 1 1 3, .done 1 .cancelled, .write 2 0 1 2, .write 2 1 2 2] := by decide +kernel
+
+/-! ## non-vacuity across a reconnect: a three-fragment request is interrupted by `close()` after its first fragment,
+    `connect()` follows while it sits in its acknowledgement wait, a second request is issued; the interrupted request's
+    fragments 1 and 2 go out on the new connection under the message lock, then the new request - the monitor accepts -/
+example : monRun none (runEvents {} [.start 1 5 false 3 300013, .close, .connect, .start 2 1 false 2 500026, .tick, .tick,
+    .tick, .rxAck 0]).2.flatten = some none := by decide +kernel
 
 /-! ## non-vacuity: two concurrent two-fragment requests - the D9 scenario of the pinned tree: the wire
     order is first(1), last(1), first(2), last(2) -/
